@@ -118,6 +118,18 @@
 (* closure.  Running the handlers BEFORE closing the connections (named variant DevCleanupFirst)  *)
 (* makes the closure itself wait for the backend.                                                 *)
 (*                                                                                                *)
+(*   Error classes.  What a Read / Write of an end returns is a dimension of its own: clean EOF  *)
+(* (CloseEnd; w = "data": with the last bytes), the expiry of a read deadline = Timeout() AND      *)
+(* Temporary() (Glitch: t0 once without bytes, tn once with bytes, tp = a polling transport, every  *)
+(* idle Read, persistent) - the ONLY error the copy loop may retry -, and a permanent failure       *)
+(* (ErrorEnd; w = "data": with the bytes in hand), which every further call returns again and       *)
+(* which says about itself nothing ("plain"), Timeout() but not Temporary() ("tmo": quic-go's       *)
+(* IdleTimeoutError, the peer vanished) or Temporary() but not Timeout() ("tmp").  RetryOn /        *)
+(* RetryWriteOn (named variants, as is {}) = the classes a sloppier retry test takes for a deadline *)
+(* expiry: with the other end idle the copier then spins on the dead connection (ghost `spin`,      *)
+(* invariant NoBusyLoop), no copier ever ends, closeBridge is never called - ClosureSeen and        *)
+(* Forgotten fail (Bridge_show_retry*.cfg).  After the first close / failure the tunnel is being    *)
+(* torn down; a second ending is not modelled.                                                      *)
 (* Configurations: Bridge_mc.cfg (as found, clauses in "or the named deviation happened" form),   *)
 (* Bridge_fixed.cfg (as the statement needs it, strict clauses), Bridge_live.cfg /                *)
 (* Bridge_live_fixed.cfg (liveness under weak fairness, as found / as needed), Bridge_gen.cfg     *)
@@ -143,6 +155,10 @@ CONSTANTS BUF,         \* copy buffer size (model scale, >= 3)
           DevIdleSweep,    \* TRUE: the connection manager's idle sweep ignores moving bytes (as found); FALSE: they count as activity
           DevFwdNoEof,     \* TRUE: a forwarded tunnel does not pass the source's end-of-stream on to the target (as found)
           SrcKinds,        \* ways the source leg arrives: subset of {"direct", "pkt"}
+          ErrClasses,      \* classes of the error a failed end returns on every further call: subset of {"plain", "tmo", "tmp"}
+          PollOn,          \* TRUE: polling transports (Glitch "tp") explored
+          RetryOn,         \* classes of a Read error the copy loop's retry test takes for a deadline expiry (as is: {}; seeded variant {"tmo"})
+          RetryWriteOn,    \* likewise for the error of a Write (as is: {} - any write error ends the loop)
           DevBufio,        \* TRUE: cross-node first frame read through a discarded bufio.Reader (seeded variant)
           AttachKinds,     \* ways of attaching the target explored: subset of {"local", "pkt", "xnode", "fwd"}
           HoldOn,          \* TRUE: tunnels that outlive the heartbeat timeout explored
@@ -152,18 +168,18 @@ CONSTANTS BUF,         \* copy buffer size (model scale, >= 3)
 VARIABLES lim, tokens, paid,
           attached, endSt, avail, sent, delivered, rdOff, inflight, pc,
           armed, glitch, nfault, bridgeClosed, registered, nsend, ended,
-          endMode, rdErr, stalled, routeFail,
+          endMode, errClass, spin, rdErr, stalled, routeFail,
           akind, skind, held, seenEOF, statStall, closerBusy,
           replaced, oldClosed, rdgen,
           devLimErr, devStale, lost, misorder, crashed, dropped,
           hist
 
 vars == <<lim, tokens, paid, attached, endSt, avail, sent, delivered, rdOff, inflight, pc,
-          armed, glitch, nfault, bridgeClosed, registered, nsend, ended, endMode, rdErr, stalled, routeFail, akind, skind, held, seenEOF, statStall, closerBusy,
+          armed, glitch, nfault, bridgeClosed, registered, nsend, ended, endMode, errClass, spin, rdErr, stalled, routeFail, akind, skind, held, seenEOF, statStall, closerBusy,
           replaced, oldClosed, rdgen,
           devLimErr, devStale, lost, misorder, crashed, dropped, hist>>
 view == <<lim, tokens, paid, attached, endSt, avail, sent, delivered, rdOff, inflight, pc,
-          armed, glitch, nfault, bridgeClosed, registered, nsend, ended, endMode, rdErr, stalled, routeFail, akind, skind, held, seenEOF, statStall, closerBusy,
+          armed, glitch, nfault, bridgeClosed, registered, nsend, ended, endMode, errClass, spin, rdErr, stalled, routeFail, akind, skind, held, seenEOF, statStall, closerBusy,
           replaced, oldClosed, rdgen,
           devLimErr, devStale, lost, misorder, crashed, dropped>>
 
@@ -181,6 +197,7 @@ SumSeq(q) == IF q = <<>> THEN 0 ELSE Head(q) + SumSeq(Tail(q))
 Size(c) == CASE c = "one" -> 1 [] c = "Bm1" -> BUF - 1 [] c = "B" -> BUF [] c = "Bp1" -> BUF + 1 [] c = "big" -> 2 * BUF
 Paced(l) == l \in {"tiny", "edge", "slow"}
 Burst(l) == CASE l = "tiny" -> 1 [] l = "slow" -> 1 [] l = "edge" -> BUF [] OTHER -> 0
+ASSUME ErrClasses \subseteq {"plain", "tmo", "tmp"} /\ RetryOn \subseteq {"tmo", "tmp"} /\ RetryWriteOn \subseteq {"tmo", "tmp"}
 ASSUME AttachKinds \subseteq {"local", "pkt", "xnode", "fwd"} /\ SrcKinds \subseteq {"direct", "pkt"} /\ RegLegs \subseteq {"S", "T", "F"}
 ASSUME BUF >= 3 /\ Lims \subseteq {"none", "tiny", "edge", "large", "slow"} /\ Classes \subseteq {"one", "Bm1", "B", "Bp1", "big"}
 
@@ -202,6 +219,7 @@ Init == /\ lim \in Lims /\ tokens = Burst(lim) /\ paid = [d \in Dirs |-> 0]
         /\ pc = [d \in Dirs |-> "idle"]
         /\ armed = [e \in Ends |-> FALSE] /\ glitch = [e \in Ends |-> "no"] /\ nfault = 0
         /\ endMode = [e \in Ends |-> "plain"] /\ rdErr = [d \in Dirs |-> "none"]
+        /\ errClass = [e \in Ends |-> "none"] /\ spin = [d \in Dirs |-> 0]
         /\ stalled = [e \in Ends |-> FALSE] /\ routeFail = FALSE
         /\ akind = "none" /\ skind \in SrcKinds /\ held = FALSE /\ seenEOF = [e \in Ends |-> FALSE] /\ statStall = FALSE /\ closerBusy = FALSE
         /\ bridgeClosed = FALSE /\ registered = TRUE /\ nsend = 0 /\ ended = "none"
@@ -230,7 +248,7 @@ Send(e, c) ==
   /\ sent' = [sent EXCEPT ![OutOf(e)] = @ + Size(c)]
   /\ H([a |-> "send", e |-> e, c |-> c])
   /\ LimU /\ FaultU /\ RepU /\ DevU
-  /\ UNCHANGED <<attached, endSt, delivered, rdOff, inflight, pc, rdgen, bridgeClosed, registered, ended, endMode, rdErr>>
+  /\ UNCHANGED <<attached, endSt, delivered, rdOff, inflight, pc, rdgen, bridgeClosed, registered, ended, endMode, errClass, spin, rdErr>>
   /\ XU
 
 \* SetTargetConnection: close(ready); Start() leaves its select and launches the two copiers; the s2t
@@ -254,7 +272,7 @@ Attach(k) ==
      ELSE UNCHANGED <<avail, rdOff, lost>>
   /\ H([a |-> "attach", k |-> k])
   /\ LimU /\ FaultU /\ RepU
-  /\ UNCHANGED <<endSt, sent, delivered, inflight, bridgeClosed, registered, nsend, ended, endMode, rdErr,
+  /\ UNCHANGED <<endSt, sent, delivered, inflight, bridgeClosed, registered, nsend, ended, endMode, errClass, spin, rdErr,
                  skind, held, seenEOF, statStall, closerBusy, devLimErr, devStale, misorder, crashed, dropped>>
 
 \* an end may only end the tunnel under the "slow" limit when nothing of its own is still being paced
@@ -267,23 +285,29 @@ CloseEnd(e, w) ==
   /\ ended = "none" /\ endSt[e] = "open" /\ registered /\ ~bridgeClosed /\ NoBacklog(e)
   /\ (w = "data" => Faults)
   /\ endSt' = [endSt EXCEPT ![e] = "closed"]
-  /\ endMode' = [endMode EXCEPT ![e] = w]
+  /\ endMode' = [endMode EXCEPT ![e] = w] /\ UNCHANGED <<errClass, spin>>
   /\ ended' = "close"
   /\ H([a |-> "close", e |-> e, w |-> w])
   /\ LimU /\ CopU /\ FaultU /\ RepU /\ DevU
   /\ UNCHANGED <<attached, avail, bridgeClosed, registered, nsend>>
   /\ XU
 
-\* an end's connection fails (reset): unread bytes are gone, reads and writes fail;
-\* w = "data": the failing read still returns what it had in hand (one buffer-full at most) with the error
-ErrorEnd(e, w) ==
+\* an end's connection fails for good (reset, the peer vanished): unread bytes are gone, every further Read
+\* and Write returns the same error; w = "data": the failing read still returns what it had in hand (one
+\* buffer-full at most) with the error.  c = what the error says about itself: "plain" = nothing (no
+\* Timeout() / Temporary() methods, e.g. ECONNRESET), "tmo" = Timeout() but not Temporary() (quic-go's
+\* IdleTimeoutError, a keep-alive that gave up), "tmp" = Temporary() but not Timeout().  None of them is
+\* the expiry of a read deadline (Timeout() and Temporary(): Glitch), which alone may be retried.
+ErrorEnd(e, w, c) ==
+  /\ c \in ErrClasses
   /\ ended = "none" /\ endSt[e] = "open" /\ registered /\ ~bridgeClosed /\ NoBacklog(e)
   /\ (w = "data" => Faults /\ avail[SendChan(e)] # <<>>)
   /\ endSt' = [endSt EXCEPT ![e] = "failed"]
+  /\ errClass' = [errClass EXCEPT ![e] = c] /\ spin' = spin
   /\ endMode' = [endMode EXCEPT ![e] = w]
   /\ avail' = [avail EXCEPT ![SendChan(e)] = IF w = "data" THEN <<Min(BUF, Head(@))>> ELSE <<>>]
   /\ ended' = "error"
-  /\ H([a |-> "error", e |-> e, w |-> w])
+  /\ H([a |-> "error", e |-> e, w |-> w, x |-> c])
   /\ LimU /\ CopU /\ FaultU /\ RepU /\ DevU
   /\ UNCHANGED <<attached, bridgeClosed, registered, nsend>>
   /\ XU
@@ -294,17 +318,19 @@ Arm(e) ==
   /\ armed' = [armed EXCEPT ![e] = TRUE] /\ nfault' = 1 /\ glitch' = glitch /\ UNCHANGED <<stalled, routeFail>>
   /\ H([a |-> "arm", e |-> e])
   /\ LimU /\ CopU /\ RepU /\ DevU
-  /\ UNCHANGED <<attached, endSt, avail, bridgeClosed, registered, nsend, ended, endMode>>
+  /\ UNCHANGED <<attached, endSt, avail, bridgeClosed, registered, nsend, ended, endMode, errClass, spin>>
   /\ XU
 
 \* k = "t0": the next Read on end e's connection returns (0, temporary timeout) - retried by the loop;
-\* k = "tn": the next Read that has bytes returns them TOGETHER WITH a temporary timeout
+\* k = "tn": the next Read that has bytes returns them TOGETHER WITH a temporary timeout;
+\* k = "tp": from now on EVERY Read that finds nothing returns (0, temporary timeout) after its poll interval
+\*           (a deadline-polling transport; persistent).  Such a Read changes nothing: it is a stuttering step.
 Glitch(e, k) ==
   /\ Faults /\ nfault = 0 /\ ended = "none" /\ endSt[e] = "open" /\ registered /\ ~bridgeClosed
   /\ glitch' = [glitch EXCEPT ![e] = k] /\ nfault' = 1 /\ armed' = armed /\ UNCHANGED <<stalled, routeFail>>
   /\ H([a |-> "glitch", e |-> e, k |-> k])
   /\ LimU /\ CopU /\ RepU /\ DevU
-  /\ UNCHANGED <<attached, endSt, avail, bridgeClosed, registered, nsend, ended, endMode>>
+  /\ UNCHANGED <<attached, endSt, avail, bridgeClosed, registered, nsend, ended, endMode, errClass, spin>>
   /\ XU
 
 \* end e stops draining what the bridge writes to it (back-pressure) / drains again
@@ -313,14 +339,14 @@ Stall(e) ==
   /\ stalled' = [stalled EXCEPT ![e] = TRUE] /\ nfault' = 1
   /\ H([a |-> "stall", e |-> e])
   /\ LimU /\ CopU /\ RepU /\ DevU
-  /\ UNCHANGED <<attached, endSt, avail, bridgeClosed, registered, nsend, ended, endMode, armed, glitch, routeFail>>
+  /\ UNCHANGED <<attached, endSt, avail, bridgeClosed, registered, nsend, ended, endMode, errClass, spin, armed, glitch, routeFail>>
   /\ XU
 Unstall(e) ==
   /\ stalled[e] /\ endSt[e] = "open" /\ ~bridgeClosed
   /\ stalled' = [stalled EXCEPT ![e] = FALSE]
   /\ H([a |-> "unstall", e |-> e])
   /\ LimU /\ CopU /\ RepU /\ DevU
-  /\ UNCHANGED <<attached, endSt, avail, bridgeClosed, registered, nsend, ended, endMode, armed, glitch, nfault, routeFail>>
+  /\ UNCHANGED <<attached, endSt, avail, bridgeClosed, registered, nsend, ended, endMode, errClass, spin, armed, glitch, nfault, routeFail>>
   /\ XU
   /\ XU
 
@@ -330,7 +356,7 @@ RouteFail ==
   /\ routeFail' = TRUE /\ nfault' = 1
   /\ H([a |-> "routefail"])
   /\ LimU /\ CopU /\ RepU /\ DevU
-  /\ UNCHANGED <<attached, endSt, avail, bridgeClosed, registered, nsend, ended, endMode, armed, glitch, stalled>>
+  /\ UNCHANGED <<attached, endSt, avail, bridgeClosed, registered, nsend, ended, endMode, errClass, spin, armed, glitch, stalled>>
   /\ XU
 
 \* the source client re-opens the tunnel on a new connection (handleExistingBridge)
@@ -346,7 +372,7 @@ ReplaceSource ==
           /\ dropped' = dropped + SumSeq(avail["s1"])
   /\ H([a |-> "replace"])
   /\ LimU /\ CopU /\ FaultU
-  /\ UNCHANGED <<attached, endSt, bridgeClosed, registered, nsend, ended, endMode, devLimErr, devStale, lost, misorder, crashed>>
+  /\ UNCHANGED <<attached, endSt, bridgeClosed, registered, nsend, ended, endMode, errClass, spin, devLimErr, devStale, lost, misorder, crashed>>
   /\ XU
 
 \* the replaced connection finally ends (the client or the network closes it)
@@ -355,7 +381,7 @@ CloseOld ==
   /\ oldClosed' = TRUE /\ replaced' = replaced
   /\ H([a |-> "closeold"])
   /\ LimU /\ CopU /\ FaultU /\ DevU
-  /\ UNCHANGED <<attached, endSt, avail, bridgeClosed, registered, nsend, ended, endMode>>
+  /\ UNCHANGED <<attached, endSt, avail, bridgeClosed, registered, nsend, ended, endMode, errClass, spin>>
   /\ XU
 
 \* ---- the bridge ------------------------------------------------------------------------------
@@ -396,20 +422,28 @@ Enter(d) ==
   /\ NoH
   /\ LimU /\ FaultU /\ RepU
   /\ UNCHANGED <<attached, endSt, avail, sent, delivered, rdOff, inflight, rdgen, bridgeClosed, nsend, ended,
-                 endMode, rdErr, devLimErr, devStale, lost, misorder, dropped>>
+                 endMode, errClass, spin, rdErr, devLimErr, devStale, lost, misorder, dropped>>
   /\ EofTo(d) /\ UNCHANGED <<akind, skind, held, statStall, closerBusy>>
 
 \* src.Read(buf)
+\* the retry test of CopyWithControl: `continue` on an error that is the expiry of a read deadline.  As is
+\* it asks for Timeout() AND Temporary(), which no permanent error class has; the io.Copy loops of the
+\* splice kinds have no retry test at all.
+Retried(e)  == ~Splice(akind) /\ endSt[e] = "failed" /\ errClass[e] \in RetryOn
+RetriedW(e) == ~Splice(akind) /\ endSt[e] = "failed" /\ errClass[e] \in RetryWriteOn
+\* ghost: calls direction d has made on a connection that had already failed (capped)
+Bump(d) == spin' = [spin EXCEPT ![d] = IF @ < 3 THEN @ + 1 ELSE @]
+
 Read(d) ==
   /\ pc[d] = "read"
   /\ LET ch == RdChan(d) src == Src(d) IN
      \/ \* the bridge closed this connection: Read fails
         /\ Cut(d) /\ ~OnOld(d)
-        /\ ExitCopy(d) /\ UNCHANGED <<avail, rdOff, inflight, glitch, rdErr>>
+        /\ ExitCopy(d) /\ UNCHANGED <<avail, rdOff, inflight, glitch, rdErr, spin>>
      \/ \* transient timeout without bytes: `continue`
         /\ ~Cut(d) /\ ~OnOld(d) /\ glitch[src] = "t0"
         /\ glitch' = [glitch EXCEPT ![src] = "no"]
-        /\ UNCHANGED <<avail, rdOff, inflight, pc, rdgen, rdErr>>
+        /\ UNCHANGED <<avail, rdOff, inflight, pc, rdgen, rdErr, spin>>
      \/ \* data: one buffer-full at most, never across the end's write boundaries - possibly together
         \* with a temporary timeout, with io.EOF (last bytes of a closed end) or with the connection error
         /\ (Cut(d) => OnOld(d)) /\ (OnOld(d) \/ glitch[src] # "t0")
@@ -427,15 +461,22 @@ Read(d) ==
            /\ rdErr' = [rdErr EXCEPT ![d] = with]
            /\ glitch' = IF ~OnOld(d) /\ glitch[src] = "tn" /\ with = "none" THEN [glitch EXCEPT ![src] = "no"] ELSE glitch
            /\ pc' = [pc EXCEPT ![d] = IF lim = "none" \/ Splice(akind) THEN "write" ELSE "limit"]
+           /\ IF with = "err" THEN Bump(d) ELSE spin' = spin
         /\ UNCHANGED <<rdgen>>
      \/ \* end of stream / read error without bytes
         /\ (Cut(d) => OnOld(d)) /\ (OnOld(d) \/ glitch[src] # "t0")
         /\ IF OnOld(d) THEN avail[ch] = <<>> /\ oldClosed
            ELSE avail[ch] = <<>> /\ endSt[src] \in {"closed", "failed"}
-        /\ ExitCopy(d) /\ UNCHANGED <<avail, rdOff, inflight, glitch, rdErr>>
+        /\ IF ~OnOld(d) /\ Retried(src)
+           THEN \* DEVIATION (RetryOn): the permanent error is taken for a deadline expiry - `continue`, and the
+                \* next Read returns it again, at once: the copier spins, nothing ever closes the tunnel
+                pc' = pc /\ rdgen' = rdgen
+           ELSE ExitCopy(d)
+        /\ IF ~OnOld(d) /\ endSt[src] = "failed" THEN Bump(d) ELSE spin' = spin
+        /\ UNCHANGED <<avail, rdOff, inflight, glitch, rdErr>>
   /\ H([a |-> "R", d |-> d])
   /\ UNCHANGED <<lim, tokens, paid, attached, endSt, sent, delivered, armed, nfault, stalled, routeFail, bridgeClosed, registered,
-                 nsend, ended, endMode>> /\ RepU /\ DevU
+                 nsend, ended, endMode, errClass>> /\ RepU /\ DevU
   /\ EofTo(d) /\ UNCHANGED <<akind, skind, held, statStall, closerBusy>>
 
 \* rateLimiter.WaitN(ctx, n)
@@ -466,7 +507,7 @@ Limit(d) ==
               ELSE paid' = [paid EXCEPT ![d] = @ + k] /\ pc' = pc
         /\ UNCHANGED <<devLimErr, lost, inflight, rdgen, rdErr>>
   /\ NoH
-  /\ UNCHANGED <<lim, attached, endSt, avail, sent, delivered, rdOff, bridgeClosed, registered, nsend, ended, endMode,
+  /\ UNCHANGED <<lim, attached, endSt, avail, sent, delivered, rdOff, bridgeClosed, registered, nsend, ended, endMode, errClass, spin,
                  devStale, misorder, crashed, dropped>> /\ FaultU /\ RepU
   /\ EofTo(d) /\ UNCHANGED <<akind, skind, held, statStall, closerBusy>>
 
@@ -475,7 +516,7 @@ Refill ==
   /\ Paced(lim) /\ tokens < Burst(lim) /\ \E d \in Dirs : pc[d] = "limit"
   /\ tokens' = Burst(lim)
   /\ NoH
-  /\ UNCHANGED <<lim, paid, attached, endSt, avail, bridgeClosed, registered, nsend, ended, endMode>>
+  /\ UNCHANGED <<lim, paid, attached, endSt, avail, bridgeClosed, registered, nsend, ended, endMode, errClass, spin>>
   /\ CopU /\ FaultU /\ RepU /\ DevU
   /\ XU
 
@@ -485,8 +526,12 @@ Write(d) ==
   /\ LET dst == Dst(d) n == inflight[d] IN
      \/ \* destination gone (closed by the bridge, or the end closed / failed): error, chunk dropped
         /\ bridgeClosed \/ endSt[dst] # "open" \/ Severed(dst)
-        /\ Drop(d) /\ ExitCopy(d)
-        /\ UNCHANGED <<delivered, endSt, armed, ended, misorder>>
+        /\ IF ~bridgeClosed /\ ~Severed(dst) /\ RetriedW(dst)
+           THEN \* DEVIATION (RetryWriteOn): the write error is taken for a deadline expiry, the chunk is offered again
+                UNCHANGED <<pc, rdgen, lost, inflight, rdErr>>
+           ELSE Drop(d) /\ ExitCopy(d)
+        /\ IF ~bridgeClosed /\ endSt[dst] = "failed" THEN Bump(d) ELSE spin' = spin
+        /\ UNCHANGED <<delivered, endSt, armed, ended, misorder, errClass>>
      \/ \* short write with error: part of the chunk is taken, the connection is then broken
         /\ ~bridgeClosed /\ endSt[dst] = "open" /\ armed[dst] /\ ~stalled[dst] /\ ~Severed(dst)
         /\ LET k == n \div 2 IN
@@ -494,7 +539,7 @@ Write(d) ==
            /\ misorder' = (misorder \/ rdOff[d] - n # delivered[d])
            /\ lost' = [lost EXCEPT ![d] = @ + (n - k)] /\ inflight' = [inflight EXCEPT ![d] = 0]
         /\ rdErr' = [rdErr EXCEPT ![d] = "none"]
-        /\ endSt' = [endSt EXCEPT ![dst] = "failed"]
+        /\ endSt' = [endSt EXCEPT ![dst] = "failed"] /\ errClass' = [errClass EXCEPT ![dst] = "plain"] /\ spin' = spin
         /\ armed' = [armed EXCEPT ![dst] = FALSE]
         /\ ended' = IF ended = "none" THEN "error" ELSE ended
         /\ ExitCopy(d)
@@ -503,9 +548,10 @@ Write(d) ==
         /\ misorder' = (misorder \/ rdOff[d] - n # delivered[d])
         /\ inflight' = [inflight EXCEPT ![d] = 0]
         \* `if err != nil`: a timeout that came with the bytes is retried, EOF / an error end the loop
-        /\ IF rdErr[d] = "none" THEN pc' = [pc EXCEPT ![d] = "read"] /\ rdgen' = rdgen ELSE ExitCopy(d)
+        \* (DEVIATION RetryOn: a permanent error of a retried class that came with the bytes is retried, too)
+        /\ IF rdErr[d] = "none" \/ (rdErr[d] = "err" /\ Retried(Src(d))) THEN pc' = [pc EXCEPT ![d] = "read"] /\ rdgen' = rdgen ELSE ExitCopy(d)
         /\ rdErr' = [rdErr EXCEPT ![d] = "none"]
-        /\ UNCHANGED <<endSt, armed, ended, lost>>
+        /\ UNCHANGED <<endSt, armed, ended, lost, errClass, spin>>
   /\ H([a |-> "W", d |-> d])
   /\ UNCHANGED <<lim, tokens, paid, attached, avail, sent, rdOff, glitch, nfault, stalled, routeFail, bridgeClosed, registered, nsend, endMode,
                  devLimErr, devStale, crashed, dropped>> /\ RepU
@@ -525,7 +571,7 @@ CloseBridge ==
   /\ bridgeClosed' = TRUE /\ closerBusy' = TRUE          \* connections closed, context cancelled; now the handlers
   /\ NoH
   /\ LimU /\ CopU /\ FaultU /\ RepU /\ DevU
-  /\ UNCHANGED <<attached, endSt, avail, registered, nsend, ended, endMode, akind, skind, held, seenEOF, statStall>>
+  /\ UNCHANGED <<attached, endSt, avail, registered, nsend, ended, endMode, errClass, spin, akind, skind, held, seenEOF, statStall>>
 
 \* Bridge.Close() called by someone else (server shutdown, quota enforcement)
 ExtClose ==
@@ -533,7 +579,7 @@ ExtClose ==
   /\ bridgeClosed' = TRUE /\ ended' = "bridge" /\ closerBusy' = TRUE
   /\ H([a |-> "extclose"])
   /\ LimU /\ CopU /\ FaultU /\ RepU /\ DevU
-  /\ UNCHANGED <<attached, endSt, avail, registered, nsend, endMode, akind, skind, held, seenEOF, statStall>>
+  /\ UNCHANGED <<attached, endSt, avail, registered, nsend, endMode, errClass, spin, akind, skind, held, seenEOF, statStall>>
 
 \* wg.Wait() returned (or Start failed before the target came): runBridgeLifecycle deletes the map entry
 Unregister ==
@@ -548,7 +594,7 @@ Unregister ==
   /\ bridgeClosed' = TRUE                                \* deferred bridge.Close()
   /\ NoH
   /\ LimU /\ CopU /\ FaultU /\ RepU /\ DevU
-  /\ UNCHANGED <<attached, endSt, avail, nsend, ended, endMode>>
+  /\ UNCHANGED <<attached, endSt, avail, nsend, ended, endMode, errClass, spin>>
   /\ XU
 
 \* the 30 s timer of Start fires before a target was attached
@@ -557,7 +603,7 @@ ReadyTimeout ==
   /\ registered' = FALSE /\ bridgeClosed' = TRUE
   /\ H([a |-> "timeout"])
   /\ LimU /\ CopU /\ FaultU /\ RepU /\ DevU
-  /\ UNCHANGED <<attached, endSt, avail, nsend, ended, endMode>>
+  /\ UNCHANGED <<attached, endSt, avail, nsend, ended, endMode, errClass, spin>>
   /\ XU
 
 \* ghost: the s2t goroutine is parked in Read on the replaced connection while the tunnel is over
@@ -566,7 +612,7 @@ MarkStale ==
   /\ devStale' = TRUE
   /\ NoH
   /\ LimU /\ CopU /\ FaultU /\ RepU
-  /\ UNCHANGED <<attached, endSt, avail, bridgeClosed, registered, nsend, ended, devLimErr, lost, misorder, crashed, dropped, endMode>>
+  /\ UNCHANGED <<attached, endSt, avail, bridgeClosed, registered, nsend, ended, devLimErr, lost, misorder, crashed, dropped, endMode, errClass, spin>>
   /\ XU
 
 \* the clean-up handlers of Close() return (the traffic report needs the statistics backend)
@@ -575,7 +621,7 @@ CleanupDone ==
   /\ closerBusy' = FALSE
   /\ NoH
   /\ LimU /\ CopU /\ FaultU /\ RepU /\ DevU
-  /\ UNCHANGED <<attached, endSt, avail, bridgeClosed, registered, nsend, ended, endMode, akind, skind, held, seenEOF, statStall>>
+  /\ UNCHANGED <<attached, endSt, avail, bridgeClosed, registered, nsend, ended, endMode, errClass, spin, akind, skind, held, seenEOF, statStall>>
 
 \* the statistics backend stops answering / answers again
 StatStall ==
@@ -583,14 +629,14 @@ StatStall ==
   /\ statStall' = TRUE /\ nfault' = 1
   /\ H([a |-> "statstall"])
   /\ LimU /\ CopU /\ RepU /\ DevU
-  /\ UNCHANGED <<attached, endSt, avail, bridgeClosed, registered, nsend, ended, endMode, armed, glitch, stalled, routeFail,
+  /\ UNCHANGED <<attached, endSt, avail, bridgeClosed, registered, nsend, ended, endMode, errClass, spin, armed, glitch, stalled, routeFail,
                  akind, skind, held, seenEOF, closerBusy>>
 StatResume ==
   /\ statStall
   /\ statStall' = FALSE
   /\ H([a |-> "statresume"])
   /\ LimU /\ CopU /\ FaultU /\ RepU /\ DevU
-  /\ UNCHANGED <<attached, endSt, avail, bridgeClosed, registered, nsend, ended, endMode, akind, skind, held, seenEOF, closerBusy>>
+  /\ UNCHANGED <<attached, endSt, avail, bridgeClosed, registered, nsend, ended, endMode, errClass, spin, akind, skind, held, seenEOF, closerBusy>>
 
 \* the tunnel outlives the heartbeat timeout and the idle timeout (and a sweep of the stale-connection cleaner
 \* and of the connection manager), both ends talking all the while
@@ -599,7 +645,7 @@ Hold ==
   /\ held' = TRUE
   /\ H([a |-> "hold"])
   /\ LimU /\ CopU /\ FaultU /\ RepU /\ DevU
-  /\ UNCHANGED <<attached, endSt, avail, bridgeClosed, registered, nsend, ended, endMode, akind, skind, seenEOF, statStall, closerBusy>>
+  /\ UNCHANGED <<attached, endSt, avail, bridgeClosed, registered, nsend, ended, endMode, errClass, spin, akind, skind, seenEOF, statStall, closerBusy>>
 
 \* splice: an end that has seen end-of-stream closes its connection (the peer node's forwarder, a client)
 React(e) ==
@@ -607,13 +653,13 @@ React(e) ==
   /\ endSt' = [endSt EXCEPT ![e] = "closed"]
   /\ NoH
   /\ LimU /\ CopU /\ FaultU /\ RepU /\ DevU
-  /\ UNCHANGED <<attached, avail, bridgeClosed, registered, nsend, ended, endMode>> /\ XU
+  /\ UNCHANGED <<attached, avail, bridgeClosed, registered, nsend, ended, endMode, errClass, spin>> /\ XU
 
 Copier(d) == Enter(d) \/ Read(d) \/ Limit(d) \/ Write(d)
 Env == \/ \E e \in Ends : \E c \in Classes : Send(e, c)
        \/ \E k \in AttachKinds : Attach(k)
-       \/ \E e \in Ends : \/ \E w \in {"plain", "data"} : CloseEnd(e, w) \/ ErrorEnd(e, w)
-                          \/ Arm(e) \/ \E k \in {"t0", "tn"} : Glitch(e, k)
+       \/ \E e \in Ends : \/ \E w \in {"plain", "data"} : CloseEnd(e, w) \/ \E c \in ErrClasses : ErrorEnd(e, w, c)
+                          \/ Arm(e) \/ \E k \in (IF PollOn THEN {"t0", "tn", "tp"} ELSE {"t0", "tn"}) : Glitch(e, k)
                           \/ Stall(e) \/ Unstall(e)
        \/ RouteFail \/ StatStall \/ StatResume \/ Hold
        \/ ReplaceSource \/ CloseOld \/ ExtClose
@@ -631,7 +677,8 @@ LiveSpec == Spec /\ Fair
 TypeOK == /\ lim \in Lims /\ tokens \in 0..BUF /\ attached \in BOOLEAN /\ bridgeClosed \in BOOLEAN
           /\ \A d \in Dirs : /\ pc[d] \in {"idle", "start", "read", "limit", "write", "done"}
                              /\ inflight[d] \in 0..BUF /\ paid[d] \in 0..BUF
-          /\ \A e \in Ends : endSt[e] \in {"open", "closed", "failed"} /\ glitch[e] \in {"no", "t0", "tn"} /\ endMode[e] \in {"plain", "data"}
+          /\ \A e \in Ends : endSt[e] \in {"open", "closed", "failed"} /\ glitch[e] \in {"no", "t0", "tn", "tp"} /\ endMode[e] \in {"plain", "data"}
+          /\ \A e \in Ends : errClass[e] \in {"none", "plain", "tmo", "tmp"} /\ \A d \in Dirs : spin[d] \in 0..3
           /\ \A d \in Dirs : rdErr[d] \in {"none", "eof", "err"}
           /\ \A e \in Ends : stalled[e] \in BOOLEAN /\ seenEOF[e] \in BOOLEAN
           /\ akind \in {"none", "local", "pkt", "xnode", "fwd"} /\ skind \in {"direct", "pkt"} /\ held \in BOOLEAN /\ statStall \in BOOLEAN /\ closerBusy \in BOOLEAN
@@ -675,6 +722,10 @@ IndependentKnown == devLimErr \/ KnownSweep \/ Independent     \* limiter error 
 ForgetImpliesClosed == ~registered => bridgeClosed
 \* the server survives whatever the ends do
 NoCrash == ~crashed
+\* a permanent failure of an end ends the copy loops that touch it: each direction makes at most one call on
+\* a connection that has failed (the Read / Write that learns of it) - no busy loop on a dead connection
+\* (the s2t goroutine that was still on a replaced source connection starts over once with the new one)
+NoBusyLoop == \A d \in Dirs : spin[d] <= IF replaced THEN 2 ELSE 1
 
 \* ---- liveness (under Fair) ----------------------------------------------------------------------
 \* when either end closes or fails, the other end observes closure and the server forgets the tunnel
